@@ -57,11 +57,26 @@ Definition endpoint_slope (dl dr hl hr : A) : A :=
   let w1 := c2 * hl + hr in
   (w1 * dl - hl * dr) / (hl + hr).
 
+(* Sign tests of the source.  Since /repo 79a08c0 (finding F-28, pchip-sign-product-underflow) both compare
+   torch.sign values: [torch.sign(delta_l) * torch.sign(delta_r) > 0] in _pchip_derivatives and
+   [torch.sign(s_l) * torch.sign(s_r) < 0] in _limit_endpoint (the [_v2] variants).  Before, they were written
+   as products ([_src] variants), which underflow to 0 for secants below ~1e-162.  Over R the variants agree
+   (Proofs/PchipProofs.v: same_sign_mask_R, opp_sign_mask_R); at PrimFloat they differ
+   (Properties/C20.v: C20_product_mask_underflows). *)
+Definition same_sign_mask_src (dl dr : A) : bool := c0 <? (dl * dr).
+Definition same_sign_mask_v2 (dl dr : A) : bool := c0 <? (a_sign dl * a_sign dr).
+Definition opp_sign_mask_src (sl sr : A) : bool := (sl * sr) <? c0.
+Definition opp_sign_mask_v2 (sl sr : A) : bool := (a_sign sl * a_sign sr) <? c0.
+(* THE MODEL OF THE TWO SIGN TESTS; must follow /repo (bit-exact correspondence incl. values scaled by
+   2^-700).  Also used by Model/PchipAD.v (C30). *)
+Definition same_sign_mask : A -> A -> bool := same_sign_mask_v2.
+Definition opp_sign_mask : A -> A -> bool := opp_sign_mask_v2.
+
 (* _limit_endpoint as it was before the fix of finding F-11 (/repo b976cb3): first mask [d_end * s_l < 0].
    Kept because Proofs/PchipProofs.v proves that THIS variant overshoots (regression documentation). *)
 Definition limit_endpoint_src (d sl sr : A) : A :=
   let d1 := if (d * sl) <? c0 then c0 else d in
-  if ((sl * sr) <? c0) && ((c3 * a_abs ar sl) <? a_abs ar d1) then c3 * sl else d1.
+  if (opp_sign_mask sl sr) && ((c3 * a_abs ar sl) <? a_abs ar d1) then c3 * sl else d1.
 
 (* the sign-based limiter of the reference (SciPy _edge_case):
      if sign(d) != sign(s_l): d = 0
@@ -75,15 +90,16 @@ Definition limit_endpoint_ref (d sl sr : A) : A :=
    first mask [torch.sign(d_end) != torch.sign(s_l)] *)
 Definition limit_endpoint_fixed (d sl sr : A) : A :=
   let d1 := if a_neqb (a_sign d) (a_sign sl) then c0 else d in
-  if ((sl * sr) <? c0) && ((c3 * a_abs ar sl) <? a_abs ar d1) then c3 * sl else d1.
+  if (opp_sign_mask sl sr) && ((c3 * a_abs ar sl) <? a_abs ar d1) then c3 * sl else d1.
 
 (* THE MODEL OF _limit_endpoint.  It must follow /repo (the bit-exact correspondence of ./check C20
    fails otherwise). *)
 Definition limit_endpoint : A -> A -> A -> A := limit_endpoint_fixed.
 
-(* interior knot slope: where(delta_l*delta_r > 0, whm, 0) *)
+(* interior knot slope: where(mask_same_sign, whm(safe_l, safe_r), 0); the masked entries of safe_l/safe_r
+   (secants replaced by 1, /repo 229c652, for finite gradients) never reach the output *)
 Definition interior_slope (dl dr hl hr : A) : A :=
-  if c0 <? (dl * dr) then whm dl dr hl hr else c0.
+  if same_sign_mask dl dr then whm dl dr hl hr else c0.
 
 Fixpoint interior (hs ds : list A) : list A :=
   match hs, ds with
